@@ -1,7 +1,8 @@
 ------------------------------- MODULE AmDesign ------------------------------
 (* Clock domains, resets and control inserters (guide: "Clock domains", "Control flow ...",       *)
 (* reference of ResetInserter / EnableInserter / DomainRenamer; property C03).                    *)
-(* The design: a submodule S holding registers r1 (domain D1) and r2 (domain D2, reset-less),      *)
+(* The design: a submodule S holding registers r1 (domain D1), r2 (domain D2, reset-less) and r4    *)
+(* (a two-bit signal whose bits are split between D1 and D2),                                      *)
 (* each assigned the input d every cycle, wrapped in a stack of inserters/renamers; and a          *)
 (* register r3 in domain "A" at the top level, outside every wrapper.  Domains "A" and "B" have    *)
 (* configurable active edge and reset style.  A behaviour is a sequence of *events*: simultaneous  *)
@@ -20,9 +21,10 @@ VARIABLES cfg,           \* [A |-> domcfg, B |-> domcfg, ws |-> stack, d1, d2]  
           n
 vars == <<cfg, v, ev, n>>
 
-Inits == [r1 |-> 1, r2 |-> 1, r3 |-> 1]          \* initial (= reset) values of the registers
-ResetLess == [r1 |-> FALSE, r2 |-> TRUE, r3 |-> FALSE]
-BaseDom(r) == IF r = "r1" THEN cfg.d1 ELSE IF r = "r2" THEN cfg.d2 ELSE "A"
+(* r4 is ONE two-bit signal inside S whose bit 0 (r4a) is driven in domain D1 and bit 1 (r4b) in domain D2 *)
+Inits == [r1 |-> 1, r2 |-> 1, r3 |-> 1, r4a |-> 1, r4b |-> 1]   \* initial (= reset) values of the registers
+ResetLess == [r1 |-> FALSE, r2 |-> TRUE, r3 |-> FALSE, r4a |-> FALSE, r4b |-> FALSE]
+BaseDom(r) == IF r \in {"r1", "r4a"} THEN cfg.d1 ELSE IF r \in {"r2", "r4b"} THEN cfg.d2 ELSE "A"
 Stack(r) == IF r = "r3" THEN <<>> ELSE cfg.ws  \* r3 lives outside the wrapped subtree
 
 RECURSIVE DomAfter(_, _)
@@ -59,7 +61,7 @@ RegAfter(r, old, new) ==
     ELSE IF ActiveEdge(dn, old, new) THEN (IF rstNow THEN Inits[r] ELSE Upd(r, Len(Stack(r)), old))
     ELSE old[r]
 
-Regs == {"r1", "r2", "r3"}
+Regs == {"r1", "r2", "r3", "r4a", "r4b"}
 Apply(changes) ==        \* changes: a function from some input names to new values
     LET new == [s \in DOMAIN v |-> IF s \in DOMAIN changes THEN changes[s] ELSE v[s]] IN
     [s \in DOMAIN v |-> IF s \in Regs THEN RegAfter(s, v, new) ELSE new[s]]
@@ -67,7 +69,8 @@ Apply(changes) ==        \* changes: a function from some input names to new val
 Init ==
     /\ \E a \in DomCfgs, b \in DomCfgs, ws \in Stacks, dd \in RegDoms :
           cfg = [A |-> a, B |-> b, ws |-> ws, d1 |-> dd[1], d2 |-> dd[2]]
-    /\ v = [clkA |-> 0, clkB |-> 0, rstA |-> 0, rstB |-> 0, c1 |-> 0, c2 |-> 0, d |-> 0, r1 |-> 1, r2 |-> 1, r3 |-> 1]
+    /\ v = [clkA |-> 0, clkB |-> 0, rstA |-> 0, rstB |-> 0, c1 |-> 0, c2 |-> 0, d |-> 0, r1 |-> 1, r2 |-> 1, r3 |-> 1,
+            r4a |-> 1, r4b |-> 1]
     /\ ev = <<>> /\ n = 0
 
 (* clock events: any non-empty simultaneous change of the two clocks *)
